@@ -58,6 +58,7 @@ const c12Bound = 90 * time.Second
 
 func runC12(r *mon.Run, replay string) {
 	r.Rule("each case: a chainlab fork tree (regime mix/v1only/v2only, PRNG initial target, trunk ending before/at/after the allow and require heights), 2..6 real syncer nodes each preloaded with one branch (fork depth 0..10 below the trunk tip, branch length from {0,1,2,9,10,11,12,16,24,40}), exactly one branch made sufficiently heavier than all others, connected as line/star/ring/complete in PRNG order and direction with peer caps 1/2/8, optional discovery and schedule jitter. Every tenth case each: the winner's branch sweeps the 100-block request split (99/100/101, +100/+200 in thorough); a long trunk above the require height with nodes bootstrapped from a v2 checkpoint; nodes serving at most 7 or 1 blocks per request (WithMaxSendBlocks); a freshly checkpoint-initialised node 3..40 blocks behind full nodes. Non-trivial = at least one node had to reorg or extend to reach the winner; signature = regime/topology/n/cap/trunk/branch shapes.")
+	r.Assume("an expired 90 s deadline is a violation only if the cluster is demonstrably stuck: no manager call, no served headers/blocks request and no tip change for 12 s (and 150 polling iterations) with no call in flight, or 20+ activity events without any progress (tip change / new block) for that window; otherwise the wait is extended to 360 s and a case still moving then is counted as cases_inconclusive_slow_machine")
 	r.Assume("tips are re-announced every 200 ms (outline of the tip for v2 blocks, header otherwise) like the repository's own `synced` test helper does, and missing topology edges are re-dialled every second (not in the fresh-checkpoint clusters, where an honest node dropping an honest peer is what is observed); convergence bound 90 s wall clock (unchanged tree: 1-5 s)")
 	r.Assume("checkpoint-bootstrapped nodes are only used when every fork point lies at least 2*maxBranchLen+10 blocks above the checkpoint (below it a checkpoint node legitimately cannot serve or reorg)")
 	r.Assume("loopback TCP; core/consensus is the trusted oracle labelling every generated block")
@@ -96,6 +97,7 @@ func runC12(r *mon.Run, replay string) {
 		}
 		runCluster(r, uint64(1000+i), special)
 	})
+	slowVerdict(r, n)
 	if os.Getenv("VERIF_C12_ONLY") != "" {
 		r.Inconclusive("development filter VERIF_C12_ONLY is set")
 	}
@@ -473,10 +475,12 @@ func runCluster(r *mon.Run, stream uint64, special string) {
 	cc, t, tips, cps := genCluster(r, stream, special)
 	rng := rand.New(rand.NewPCG(uint64(r.Seed)+77, stream))
 	slot := p2plab.NextSlot()
+	act := p2plab.NewActivity()
 	nodes := make([]*p2plab.Node, cc.N)
 	for i := 0; i < cc.N; i++ {
 		o := p2plab.NodeOpts{
-			Name: fmt.Sprintf("n%d", i), IP: p2plab.HonestIP(slot, i), Tree: t, Tip: tips[i], Checkpoint: cps[i],
+			Activity: act,
+			Name:     fmt.Sprintf("n%d", i), IP: p2plab.HonestIP(slot, i), Tree: t, Tip: tips[i], Checkpoint: cps[i],
 			SyncInterval: time.Duration(50+rng.IntN(50)) * time.Millisecond, DiscoveryInterval: time.Hour,
 			RPCTimeout: 3 * time.Second, MaxInbound: cc.Cap, MaxOutbound: cc.Cap, MaxSendBlocks: cc.Branches[i].MaxSend,
 			Jitter: time.Duration(cc.JitterUS) * time.Microsecond, JitterSeed: rng.Uint64(),
@@ -504,6 +508,7 @@ func runCluster(r *mon.Run, stream uint64, special string) {
 			return
 		}
 		lab = l
+		lab.Activity = act
 		defer lab.Close()
 		batch := cc.HeaderBatch
 		lab.OnSendHeaders = func(b *p2plab.Byz, rq *gateway.RPCSendHeaders) p2plab.Reply {
@@ -557,6 +562,7 @@ func runCluster(r *mon.Run, stream uint64, special string) {
 	converged := false
 	var convAt time.Duration
 	iter := 0
+	wt := newWaiter(act, c12Bound)
 	for {
 		iter++
 		all := true
@@ -570,7 +576,7 @@ func runCluster(r *mon.Run, stream uint64, special string) {
 			convAt = time.Since(start)
 			break
 		}
-		if time.Since(start) > c12Bound {
+		if wt.step() != "" {
 			break
 		}
 		if iter%4 == 0 {
@@ -742,8 +748,13 @@ func runCluster(r *mon.Run, stream uint64, special string) {
 		} else if small {
 			vsig += ":max-send-blocks-below-100"
 		}
-		fmt.Printf("note: C12 stream=%d %s stuck=%v\n", stream, vsig, stuck)
-		r.Violation(vsig, "honest connected nodes did not converge to the heaviest valid chain within the bound", cc, map[string]any{"stuck": stuck, "nodes": getReps(), "tree": summarize(t)})
+		fmt.Printf("note: C12 stream=%d %s (%s) stuck=%v\n", stream, vsig, wt.verdict, stuck)
+		if wt.verdict == "slow" {
+			slowCase(r, fmt.Sprintf("C12 stream=%d %s %v", stream, vsig, wt.info()))
+		} else {
+			r.Count("stalls_decided:"+wt.verdict, 1)
+			r.Violation(vsig, "honest connected nodes did not converge to the heaviest valid chain within the bound, and the cluster is "+wt.verdict, cc, map[string]any{"stuck": stuck, "liveness": wt.info(), "nodes": getReps(), "tree": summarize(t)})
+		}
 	}
 	for _, n := range nodes {
 		for _, f := range n.Mon.Final() {
